@@ -331,6 +331,18 @@ def rule_early_exit(ctx: Ctx) -> None:
                key_text="no early exit")
 
 
+def rule_dependence(ctx: Ctx) -> None:
+    from .c06 import _param_deps
+    fn = ctx.func(f"{MARGIN}.CheckMarginLevel.check")
+    deps = _param_deps(ctx, fn)
+    names = ["balances", "holds", "borrowed"]
+    ctx.sample({"rule": "C10.6", "margin rule depends on": [names[i] for i in sorted(deps)]})
+    ctx.check(deps == {0, 2}, "C10.6", "the margin level is a function of the updated balances and borrowed maps only", fn, fn.node,
+              f"reads {[names[i] for i in sorted(deps)]}", f"the margin rule reads {[names[i] for i in sorted(deps)]}: "
+              + ("funds on hold are part of the balance already; counting them again overstates equity and grants loans the "
+                 "requirement forbids" if 1 in deps else "it ignores a map the requirement is defined on"), key_text="margin deps")
+
+
 def _only_var(e: ast.AST, var: str) -> bool:
     names = {n.id for n in ast.walk(e) if isinstance(n, ast.Name)}
     return names <= {var, "Decimal", "ZERO"} and var in names and not any(isinstance(n, ast.Attribute) for n in ast.walk(e))
@@ -386,5 +398,6 @@ def run(ctx: Ctx) -> None:
     rule_installed(ctx)
     rule_sentinel(ctx)
     rule_early_exit(ctx)
+    rule_dependence(ctx)
     ctx.assume("prices are positive, so converting a positive net balance yields a positive amount")
     ctx.assume("the denominator (used margin + interest) is positive whenever something is borrowed")
